@@ -1113,6 +1113,9 @@ def tree(draw, s, dt, depth, first=None):
             t = list(s)
             t[a] = bounds[j + 1] - bounds[j]
             ishapes.append(t)
+        if iaxis is None and draw(st.booleans()):
+            # flattened inputs: operands may have any (multi-dimensional) shape with the right number of elements
+            ishapes = [draw(st.sampled_from(_split(prod(t)))) for t in ishapes]
         ops = [tree(draw, t, dt, depth - 1, first if j == 0 else None) for j, t in enumerate(ishapes)]
         if k == 1:
             return ops[0]
@@ -1158,6 +1161,14 @@ def children(sp):
         if k in sp and isinstance(sp[k], dict) and "op" in sp[k]:
             out.append(sp[k])
     out += sp.get("ops", [])
+    return out
+
+
+def subtrees(sp):
+    """every node of the tree (pre-order)"""
+    out = [sp]
+    for c in children(sp):
+        out += subtrees(c)
     return out
 
 
